@@ -124,7 +124,12 @@ func (c *core) execFunc() (*Response, error) {
 		}
 		return resp, nil
 	case <-c.ctx.Done():
-		atomic.SwapInt32(&done, 1)
+		if atomic.SwapInt32(&done, 1) == 1 {
+			// The request goroutine completed first and is about to fill resp and
+			// signal errCh. Wait for it: both objects go back to their pools below
+			// and must not be written once another request can acquire them.
+			<-errCh
+		}
 		ReleaseResponse(resp)
 		return nil, ErrTimeoutOrCancel
 	}
